@@ -956,6 +956,32 @@ impl ProxyNode {
     }
 }
 
+/// The bytes the real codec writes for this packet, parsed as a command by the receiving end.
+pub fn wire_request(packet: RespPacket) -> Option<Cmd> {
+    use undermoon::protocol::{DecodedPacket, EncodedPacket};
+    let mut bytes: Vec<u8> = vec![];
+    packet.encode(|b: &[u8]| bytes.extend_from_slice(b)).ok()?;
+    let mut buf = bytes::BytesMut::from(&bytes[..]);
+    match RespVec::decode(&mut buf, ()) {
+        Ok(Some(r)) if buf.is_empty() => resp_to_cmd(&r),
+        _ => None,
+    }
+}
+
+/// Reply value -> the packet the real backend-connection decoder yields for its bytes.
+pub fn wire_reply(r: RespVec) -> RespPacket {
+    use undermoon::protocol::DecodedPacket;
+    let mut bytes: Vec<u8> = vec![];
+    if undermoon::protocol::encode_resp(&mut bytes, &r).is_err() {
+        return RespPacket::Data(r);
+    }
+    let mut buf = bytes::BytesMut::from(&bytes[..]);
+    match RespPacket::decode(&mut buf, ()) {
+        Ok(Some(p)) if buf.is_empty() => p,
+        _ => RespPacket::Data(r),
+    }
+}
+
 /// Request bytes -> the packet the session decoder yields for them.
 pub fn to_session_packet(r: RespVec) -> Box<RespPacket> {
     use tokio_util::codec::Decoder;
@@ -1006,12 +1032,15 @@ impl ConnFactory for SimConnFactory {
                 let w = w.clone();
                 let (owner, target, conn_id) = (owner.clone(), target.clone(), conn_id.clone());
                 async move {
-                    let c = match resp_to_cmd(&packet.to_resp_vec()) {
+                    // what travels is what the real connection codec would write: the packet's own
+                    // encoding; the peer parses those bytes, and its reply comes back as the packet
+                    // the real connection decoder yields for the reply bytes (an indexed packet)
+                    let c = match wire_request(packet) {
                         Some(c) => c,
-                        None => return Ok(RespPacket::Data(err("ERR Protocol error: expected array of bulk strings"))),
+                        None => return Ok(wire_reply(err("ERR Protocol error: expected array of bulk strings"))),
                     };
                     match w.request(&conn_id, false, &owner, &target, vec![c]).await {
-                        Ok(mut v) => Ok(RespPacket::Data(v.pop().unwrap_or_else(|| err("ERR empty")))),
+                        Ok(mut v) => Ok(wire_reply(v.pop().unwrap_or_else(|| err("ERR empty")))),
                         Err(()) => Err(BackendError::Io(std::io::Error::new(std::io::ErrorKind::ConnectionReset, "reset"))),
                     }
                 }
